@@ -353,6 +353,9 @@ func checkC09(rep *core.Report) {
 					return
 				}
 				vals, complete := core.ResolveAlongPathsR(sd.skip, r, r.Results[0], nilEdgeFilterR(skipErr, false), 64)
+				if complete && len(vals) == 0 {
+					return // this return cannot be reached when the skip's read failed
+				}
 				only := complete && len(vals) == 1 && vals[ssa.Value(skipErr)]
 				var got []string
 				for v := range vals {
@@ -485,6 +488,26 @@ func checkReserved(r3 *core.RuleRun, sd *setDecoder) {
 	for _, ref := range referrers(le) {
 		if ifi, ok := ref.(*ssa.If); ok {
 			target = ifi.Block().Succs[0]
+		}
+		// `case id >= lo && id <= hi:` of a tagless switch evaluates the conjunction into a value first:
+		// phi(false, id <= hi) feeding the branch
+		if phi, ok := ref.(*ssa.Phi); ok {
+			conj := true
+			for _, e := range phi.Edges {
+				if e == ssa.Value(le) {
+					continue
+				}
+				if c, isC := e.(*ssa.Const); !isC || c.Value == nil || c.Value.String() != "false" {
+					conj = false
+				}
+			}
+			if conj {
+				for _, r2 := range referrers(phi) {
+					if ifi, ok := r2.(*ssa.If); ok {
+						target = ifi.Block().Succs[0]
+					}
+				}
+			}
 		}
 	}
 	if target == nil {
